@@ -1,4 +1,5 @@
 import Prom.Model.HistMachine
+import Prom.Lemmas.Guard
 import Prom.HP.Order
 /-
 Refinement: every item the replay machine `Prom.HM.item` accepts is a stutter or exactly one
@@ -7,10 +8,6 @@ trace of the real implementation is `Hp.Reach`able, and the C02 / C03 theorems h
 -/
 namespace Prom.HM
 open Prom Prom.Conc Hp
-
-theorem guard_ok {α} {c : Bool} {msg : String} {k : Except String α} {x : α} :
-    guard c msg k = .ok x ↔ c = true ∧ k = .ok x := by
-  unfold guard; split <;> simp_all
 
 theorem plainR_ok {cuts : Cuts} {r : Except String Res} {x : Res} {cuts' : Cuts} :
     plainR cuts r = .ok (x, cuts') ↔ r = .ok x ∧ cuts' = cuts := by
